@@ -152,6 +152,46 @@ class Replay:
         return complete
 
 
+class LineReplay(Replay):
+    """One preemption at an arbitrary source line: thread 0 is parked before the k-th line it executes inside the
+    pose_format package (any file, any function), thread 1 then runs (untraced) until it finishes or finds the lock
+    held, thread 0 resumes and finishes, thread 1 finishes.  k = None: never park (used to count the lines)."""
+
+    def __init__(self, k, pkgdir):
+        super().__init__(2, {}, None)
+        self.k, self.pkgdir, self.nlines = k, pkgdir, 0
+
+    def tracer(self, t):
+        if t != 0:
+            return None
+
+        def local(frame, event, arg):
+            if event == "line":
+                self.nlines += 1
+                if self.nlines == self.k:
+                    self.at[0] = (os.path.basename(frame.f_code.co_filename), frame.f_code.co_name, frame.f_lineno)
+                    self.park(0)
+            return local
+
+        def glob(frame, event, arg):
+            return local if frame.f_code.co_filename.startswith(self.pkgdir) else None
+        return glob
+
+    def run(self, fns):
+        ths = [threading.Thread(target=self.worker, args=(i, f), daemon=True) for i, f in enumerate(fns)]
+        for th in ths:
+            th.start()
+        for _ in range(50):
+            for t in range(len(fns)):
+                if not self.done[t]:
+                    self.give(t)
+            if all(self.done[:len(fns)]):
+                break
+        for th in ths:
+            th.join(TIMEOUT)
+        return all(self.done[:len(fns)])
+
+
 def dump_header(h):
     import numpy as np
     return {"version": pg.f32_word_of_float(h.version),
@@ -214,7 +254,9 @@ class C18(common.Prop):
     MODEL_FILES = ["model/C18_Threads.v", "model/PoseRead.v", "model/Codec.v", "base/Prog.v"]   # proofs: proofs/C18_*.v
     RULE = ("2 (thorough: also 3) reader threads over named file pairs - equal headers, same-length different headers, longer, "
             "shorter, malformed - as bytes, as streams and as window reads of streams, memo initially empty or warm; for every pair "
-            "all line-level schedules with <= 2 (thorough <= 3) preemptions, 3 readers sampled; one case = one schedule; "
+            "all line-level schedules with <= 2 (thorough <= 3) preemptions, 3 readers sampled; plus, judged by the oracle only, one preemption "
+            "before every (quick: 70 sampled per pair and order) source line of pose_format executed inside Pose.read, cold memo, "
+            "6 pairs x 2 orders; one case = one schedule; "
             "non-trivial = the first switch preempts a thread that is certainly still inside the memo code (first segment < 6 line "
             "steps); distinct by content hash")
     TRUSTED = ["Coq 8.16.1 kernel (vm_compute for the refutation witnesses)", "harness/translate_c18.py (fail-closed ast translator)",
@@ -262,6 +304,8 @@ class C18(common.Prop):
         self.lock_attr = self.info["lock"] if self.info else next((a for a in ("lock", "_lock") if hasattr(PoseHeaderCache, a)), None)
         self.files = file_table()
         self.solo_cache = {}
+        import pose_format
+        self.pkgdir = os.path.dirname(os.path.abspath(pose_format.__file__)) + os.sep
 
     # ---- cases
     def configs(self, rng, tier):
@@ -314,6 +358,32 @@ class C18(common.Prop):
                 last = t
             yield {"files": {n: self.files[n].hex() for n in sorted(set(fs) | ({memo0} if memo0 else set()))},
                    "jobs": jobs, "memo0": memo0, "segs": segs + tail(3, (last + 1) % 3)}
+        yield from self.line_cases(rng, tier)
+
+    # one preemption at EVERY executed source line of pose_format inside Pose.read (oracle only: this is the search
+    # for shared state the thread model does not know about)
+    LINE_PAIRS = [(("A", "bytes", None), ("A2", "bytes", None)), (("A", "bytes", None), ("C", "bytes", None)),
+                  (("C", "stream", None), ("D", "stream", None)), (("Along", "stream", {"end_frame": 2}), ("Clong", "stream", {"start_frame": 1, "end_frame": 5})),
+                  (("Along", "stream", {"end_frame": 3}), ("A2", "bytes", None)), (("E", "bytes", None), ("B", "stream", {"end_frame": 1}))]
+
+    def count_lines(self, case):
+        self.Cache.clear_cache()
+        rp = LineReplay(None, self.pkgdir)
+        rp.run([self.open_job(case, case["jobs"][0])])
+        return rp.nlines
+
+    def line_cases(self, rng, tier):
+        budget = 70 if tier == "quick" else None           # k values per (pair, order); thorough: every line
+        for a, b in self.LINE_PAIRS:
+            for jobs in ((a, b), (b, a)):
+                base = {"mode": "line", "files": {j[0]: self.files[j[0]].hex() for j in jobs},
+                        "jobs": [{"f": f, "kind": k, "args": x or {}} for f, k, x in jobs], "memo0": None}
+                n = self.count_lines(base)
+                ks = list(range(1, n + 1))
+                if budget is not None and n > budget:
+                    ks = sorted(rng.sample(ks, budget))
+                for k in ks:
+                    yield dict(base, k=k, lines=n)
 
     @staticmethod
     def lengths(p, tier, rng):
@@ -323,6 +393,9 @@ class C18(common.Prop):
         return [(i, j, k) for i in rg for j in rg for k in rg]
 
     def features(self, case):
+        if case.get("mode") == "line":
+            return ("one-preemption-at-any-line", ",".join("%s%s" % (j["kind"][0], "w" if j["args"] else "") for j in case["jobs"]),
+                    "same-header" if {j["f"] for j in case["jobs"]} <= {"A", "A2", "Along"} else "diff")
         kinds = ",".join("%s%s" % (j["kind"][0], "w" if j["args"] else "") for j in case["jobs"])
         fs = [j["f"] for j in case["jobs"]]
         rel = "same-file" if len(set(fs)) < len(fs) else "diff"
@@ -334,6 +407,8 @@ class C18(common.Prop):
         return max(0, len(case["segs"]) - len(tail(n)) - 1)
 
     def nontrivial(self, case):
+        if case.get("mode") == "line":
+            return case["k"] <= case.get("lines", case["k"])
         # the first switch certainly preempts a running thread: no read has fewer than 6 line steps in the memo code
         return self.explicit_switches(case) >= 1 and case["segs"][0][1] < 6
 
@@ -374,7 +449,25 @@ class C18(common.Prop):
             self.solo_cache[key] = self.observe(rp.res[0], rp.obs[0])
         return self.solo_cache[key]
 
+    def run_impl_line(self, case):
+        solos = [self.solo(case, j, memo="") for j in case["jobs"]]
+        self.Cache.clear_cache()
+        rp = LineReplay(case["k"], self.pkgdir)
+        orig = getattr(self.Cache, self.lock_attr, None) if self.lock_attr else None
+        if orig is not None:
+            setattr(self.Cache, self.lock_attr, CoopLock(orig, rp))
+        try:
+            complete = rp.run([self.open_job(case, j) for j in case["jobs"]])
+        finally:
+            if orig is not None:
+                setattr(self.Cache, self.lock_attr, orig)
+        th = [self.observe(rp.res[t], None) for t in range(2)]
+        case["_threads"], case["_solos"], case["_where"] = th, solos, rp.at[0]
+        return {"complete": complete, "threads": th, "preempted_at": rp.at[0]}
+
     def run_impl(self, case):
+        if case.get("mode") == "line":
+            return self.run_impl_line(case)
         n = len(case["jobs"])
         sched = expand(case["segs"])
         solos = [self.solo(case, j, memo="") for j in case["jobs"]]     # alone, on an empty memo
@@ -398,6 +491,8 @@ class C18(common.Prop):
 
     # ---- model
     def model_request(self, case):
+        if case.get("mode") == "line":
+            return None           # judged by the oracle only
         if self.info is None or self.info["locked"] is None:
             return None
         d, s = self.info["prefetch"]
@@ -452,6 +547,15 @@ class C18(common.Prop):
         ths, solos = case.get("_threads"), case.get("_solos")
         if ths is None:
             return None
+        if case.get("mode") == "line":
+            for t, (a, s) in enumerate(zip(ths, solos)):
+                if a["res"] != s["res"]:
+                    w = case.get("_where")
+                    return {"what": "thread %d (file %s) returns %s, alone %s, when thread 0 is preempted once before %s and the other read "
+                                    "runs meanwhile" % (t, case["jobs"][t]["f"], "a different pose" if a["res"][0] == "ok" else "an exception",
+                                                        "a pose" if s["res"][0] == "ok" else "an exception", w),
+                            "thread": t, "kind": "line", "preempted_at": list(w) if w else None}
+            return None
         for t, (a, s) in enumerate(zip(ths, solos)):
             j = case["jobs"][t]
             if a["res"] == ["sched"]:
@@ -470,6 +574,9 @@ class C18(common.Prop):
         return None
 
     def classify(self, case, failure):
+        if failure.get("kind") == "line":
+            w = failure.get("preempted_at") or ["?", "?", 0]
+            return "read-path-race-at-%s:%s" % (w[0], w[1])
         if failure.get("kind") in ("foreign-header", "foreign-offset", "wrong-header", "pose"):
             return "header-memo-race-" + failure["kind"]
         return "c18-" + str(failure.get("what", "?"))[:30].replace(" ", "-")
